@@ -31,6 +31,12 @@ CLAIMED = {
  'C07': ("per-clause must-pass-through cuts inside the permission checker (scoped to the current entry / item by starting the cut at the loop body), abstract-string evaluation of every compiled pattern, authorise-before-act cuts over all client-facing service entry points with helper summaries, string-taint analysis of the checked name, action/rule/data-type consistency table",
          "Decides that Check answers 'allowed' only past [credentials present], [client known], [both patterns match the names split from the account under test], [this item is not a deny], [this item allows], scanning entries and items forward and in full, and refuses inside the scan only on a deny item; that every compiled pattern has the shape (?i)^(?:pattern)$; that every action of the 11 client-facing service entry points lies below a positive check of the resolved wallet/account name (create: the requested name) under the operation constant its rules run with.",
          "Not decided: regexp semantics; the order in which main turns the YAML map into the entry list (Go map iteration; the property is decided for the list the checker service holds). ", "§5 C07"),
+ 'C16': ("must-pass-through cut of [sender id != 0] before every process.On* invoke in the five DKG handlers, origin analysis of the id lookup (non-zero only below [peer.Name == authenticated name], same table entry), who-may-call table of the protocol methods, provenance of the reply share index and of outgoing shares",
+         "Decides that each key-generation handler calls the process service only below [sender id != 0] with the looked-up id, that the lookup yields a non-zero id only as the key of the peer whose configured name equals the authenticated client name (which enters the context in one place, from the verified leaf certificate), that nothing else calls the protocol methods, that the contribution reply is distributionSecrets[sender id] and outgoing shares go to the peer of their own id.",
+         "Not decided: nothing further; crypto/tls is trusted for the identity. ", "§5 C16"),
+ 'C19': ("configuration-literal evaluation of the tls.Config reaching credentials.NewTLS -> grpc.Creds -> grpc.NewServer (field table, pool provenance, option-slice tracing), single-server / who-may-call tables for registrations, Serve and handler methods, provenance of the identity context value",
+         "Decides that the only gRPC server in production is built with TLS credentials requiring and verifying a client certificate against a fresh pool containing only the configured authority (TLS >= 1.2, no verification overrides), that all registrations and Serve are on that server and handlers have no other caller, and that the identity used for permission decisions is PeerCertificates[0].Subject.CommonName set below HandshakeComplete in exactly one place and read through one helper by every handler.",
+         "Not decided: crypto/tls and grpc-go honour the configuration (trusted contract). ", "§5 C19"),
  'C15': ("typestate dataflow over the gate (PreLock/Lock*/PostLock), mutex pairing dataflow inside the locker, reachability in the module call graph (no re-entry below the dispatch)",
          "Decides that key locks are only requested inside the locker-wide gate, the gate is released on every path, nothing inside the gate or below the dispatch can re-enter the locker, the locker's own creation mutex is paired on every path and released before waiting for a key, and every acquired key is released by defer. These exclude every wait-for cycle (prose argument in DESIGN.md §5 C15).",
          "Not decided: termination of badger operations and third-party signers while locks are held.", "§5 C15"),
